@@ -7,7 +7,7 @@ using namespace vf;
 
 struct Sig { std::vector<Reader> readers; int outcome = 0; /* 0 ok, 1 fails silently, 2 own error then fails, 3 own error then ok */ int ownCode = -221; };
 struct PUnit { int entry = 0; std::vector<Datum> items; std::vector<std::string> seps; std::string lead; int malformedAt = -1; std::string malformed; bool trailingComma = false; };
-struct PCase { std::vector<Sig> sigs; std::vector<PUnit> units; std::string text; bool tightBuffer = false; };
+struct PCase { std::vector<Sig> sigs; std::vector<PUnit> units; std::string text; bool tightBuffer = false; int fullQueue = 0; /* > 0: queue of that size, already full when the message arrives */ };
 
 struct Compat { int code = 0; int alt = 0; std::string value; };   // code 0 = delivered; value "?" = delivered but not compared
 
@@ -199,6 +199,7 @@ static PCase decode(Src &s) {
     for (size_t u = 0; u < c.units.size(); u++) c.text += (u ? ";" : "") + unitText(c.units[u], fmt(":CMD%d", c.units[u].entry));
     c.text += s.pick(std::vector<std::string>{"\n", "\r\n"});
     c.tightBuffer = s.coin();
+    if (!s.prob(4, 5)) c.fullQueue = (int) s.range(1, 3);     // the controller has not drained the queue: every error of the message overflows
     return c;
 }
 
@@ -211,7 +212,7 @@ static std::string sigText(const Sig &g) {
 static std::string describe(const PCase &c) {
     std::string t = "signatures";
     for (size_t i = 0; i < c.sigs.size(); i++) t += fmt(" CMD%zu", i) + sigText(c.sigs[i]);
-    return t + " message '" + vis(c.text) + "'";
+    return t + " message '" + vis(c.text) + "'" + (c.fullQueue ? fmt(" [queue of %d entries, full before the message]", c.fullQueue) : "");
 }
 
 static std::string runCase(const PCase &c, bool *nt = nullptr, std::vector<std::string> *labels = nullptr) {
@@ -222,12 +223,20 @@ static std::string runCase(const PCase &c, bool *nt = nullptr, std::vector<std::
         cmd.script.retOk = !(c.sigs[i].outcome == 1 || c.sigs[i].outcome == 2);
         k.cmds.push_back(cmd);
     }
+    if (c.fullQueue) k.queueLen = c.fullQueue;
     Inst I(k);
+    if (c.fullQueue) {
+        // which errors a unit raises, whether its handler runs and what the input call returns do not depend on how many
+        // errors the controller has left in the queue; only the queue content does (C10), and each overflow is announced
+        // by an additional -350 callback, which is dropped from the trace below
+        for (int i = 0; i < c.fullQueue; i++) SCPI_ErrorPush(&I.ctx, (int16_t) (-300 - i));
+        I.trace.clear(); I.errors.clear();
+    }
     bool ret = I.input(c.text);
     if (!I.invariant.empty()) return I.invariant + ": " + describe(c);
     // split the trace per unit: a unit's events start at its H line (or are bare E lines before the next H)
     std::vector<std::string> got;
-    for (auto &l : I.trace) if (l[0] == 'H' || l[0] == 'V' || l[0] == 'E') got.push_back(l);
+    for (auto &l : I.trace) if (l[0] == 'H' || l[0] == 'V' || l[0] == 'E') { if (c.fullQueue && l == "E:-350") continue; got.push_back(l); }
     size_t gi = 0; bool anyErr = false, interesting = false;
     for (size_t u = 0; u < c.units.size(); u++) {
         const PUnit &pu = c.units[u];
@@ -272,6 +281,7 @@ static std::string body(Src &s, Ev &ev) {
     ev.eval();
     std::sort(labels.begin(), labels.end()); labels.erase(std::unique(labels.begin(), labels.end()), labels.end());
     for (auto &l : labels) ev.label(l);
+    if (c.fullQueue) ev.label("queue-full-before-message");
     if (nt) { ev.nt(hashStr(describe(c))); if (ev.wantSample()) ev.sample(describe(c)); }
     return m;
 }
@@ -313,13 +323,17 @@ static std::string bodyRet(Src &s, Ev &ev) {
     if (tail) { call += s.pick(std::vector<std::string>{"OK", "ARG 1,", "NOSU", "ARG #15ab", " "}); shape += 't'; }
     bool overrun = s.prob(1, 8) && call.size() >= 2;      // a buffer is at least 2 bytes: shorter calls always fit
     k.bufLen = overrun ? std::max((size_t) 2, call.size() - (size_t) s.range(0, std::min(call.size() - 1, (size_t) 3))) : call.size() + 1 + s.range(0, 4);
+    int full = !s.prob(4, 5) ? (int) s.range(1, 3) : 0;   // queue already full when the call arrives
+    if (full) k.queueLen = full;
     Inst I(k);
+    if (full) { for (int i = 0; i < full; i++) SCPI_ErrorPush(&I.ctx, (int16_t) (-300 - i)); I.trace.clear(); I.errors.clear(); }
     bool ret = I.input(call);
     ev.eval();
     if (!I.invariant.empty()) return I.invariant;
+    if (full) { I.errors.erase(std::remove(I.errors.begin(), I.errors.end(), -350), I.errors.end()); shape += 'F'; }
     bool expect = overrun ? false : !(any && lastErr);
     if (overrun) { if (!(I.errors.size() == 1 && I.errors[0] == -363) || I.handlerCalls) return "a chunk that does not fit (keeping one byte for the NUL) must queue exactly -363 and execute nothing: '" + vis(call) + fmt("' buffer %zu", k.bufLen); shape += 'X'; }
-    if (ret != expect) return fmt("SCPI_Input returned %d, expected %d (FALSE iff overrun or the last executed message raised an error) for one call with '", (int) ret, (int) expect) + vis(call) + fmt("' (buffer %zu)", k.bufLen);
+    if (ret != expect) return fmt("SCPI_Input returned %d, expected %d (FALSE iff overrun or the last executed message raised an error) for one call with '", (int) ret, (int) expect) + vis(call) + fmt("' (buffer %zu%s)", k.bufLen, full ? ", queue full before the call" : "");
     ev.label("ret-shape-" + shape);
     if (nm >= 2 || tail || overrun) { ev.nt(hashStr(call + (overrun ? "X" : ""))); if (ev.wantSample()) ev.sample("one SCPI_Input call: '" + vis(call) + "' -> " + (ret ? "TRUE" : "FALSE")); }
     return "";
